@@ -10,19 +10,19 @@ VARIABLES l
 tvars == <<vars, l>>
 Mark(k) == TLCSet(42, IF TLCGet(42) > k THEN TLCGet(42) ELSE k)
 IsEvent(ev) == l <= Len(Trace) /\ Trace[l].ev = ev /\ l' = l + 1
-TInit == v = "none" /\ p = "ok" /\ f = "none" /\ lvl = 0 /\ ld = "grub" /\ cf = "ok" /\ prior = "none" /\ pc = "done" /\ result = "idle" /\ l = 1 /\ TLCSet(42, 1)
+TInit == v = "none" /\ p = "ok" /\ f = "none" /\ lvl = 0 /\ ld = "grub" /\ cf = "ok" /\ prior = "none" /\ lg = "sample" /\ pc = "done" /\ result = "idle" /\ l = 1 /\ TLCSet(42, 1)
 TCall == /\ IsEvent("Call") /\ pc = "done"
          /\ {Trace[l].measured[i] : i \in DOMAIN Trace[l].measured} = Measured
          /\ v' = Trace[l].input.v /\ p' = Trace[l].input.p /\ f' = Trace[l].input.f /\ lvl' = Trace[l].input.lvl
          /\ ld' = Trace[l].input.ld /\ cf' = Trace[l].input.cf
-         /\ prior' = Trace[l].input.prior
+         /\ prior' = Trace[l].input.prior /\ lg' = Trace[l].input.lg
          /\ pc' = (IF Trace[l].input.prior = "none" THEN "verify" ELSE "prior") /\ result' = "none"
 \* the earlier call on the genuine quote returned a state
 TPrior == IsEvent("Prior") /\ PriorCall /\ Trace[l].result = "state"
 Silent == /\ l <= Len(Trace) /\ UNCHANGED l /\ (VerifyGate \/ PolicyGate \/ ExtractBank \/ Replay)
-TReturn == /\ IsEvent("Return") /\ pc = "done" /\ result \in {"state", "error"}
+TReturn == /\ IsEvent("Return") /\ pc = "done" /\ result \in {"state", "error", "both"}
            /\ Trace[l].result = result                         \* "state" | "error"; "both" / "neither" / "panic" match nothing
-           /\ result' = "returned" /\ UNCHANGED <<v, p, f, lvl, ld, cf, prior, pc>>
+           /\ result' = "returned" /\ UNCHANGED <<v, p, f, lvl, ld, cf, prior, lg, pc>>
 TNext == (TCall \/ TPrior \/ Silent \/ TReturn) /\ Mark(l')
 TSpec == TInit /\ [][TNext]_tvars
 TraceAccepted == PrintT(<<"HWM", TLCGet(42)>>) /\ TLCGet(42) = Len(Trace) + 1
